@@ -102,6 +102,38 @@ def judge_reject(case):
     return core.result("rejected:" + type(c).__name__, digest=core.digest_of([repr(case["p"]), case["type"]]))
 
 
+PRELUDES = ["none", "exhausting_process", "exhausting_noniso_process", "double_specification", "missing_parameters", "nonconverging_solver", "all"]
+
+
+def _prelude(which):
+    """model calls that RAISE (legitimately) before the construction is attempted: a failed call must not leave validation switched off."""
+    mix = U.Mixtures.H2O_EtOH
+    mem = U.make_membrane(mix, 1.0, 1.0, t_ref=313.15, ea1=25000.0, ea2=60000.0)
+    pv = U.Pervaporation(membrane=mem, mixture=mix)
+    cond = U.make_conditions(mix, 50.0, 333.15, 0.05, 0.3, "weight", "vac", "none")
+    if which in ("exhausting_process", "all"):
+        core.call(pv.ideal_isothermal_process, conditions=cond, number_of_steps=4, delta_hours=50.0)
+    if which in ("exhausting_noniso_process", "all"):
+        core.call(pv.ideal_non_isothermal_process, conditions=cond, number_of_steps=4, delta_hours=50.0)
+    if which in ("double_specification", "all"):
+        core.call(pv.calculate_partial_fluxes, feed_temperature=333.15, composition=U.Composition(p=0.3, type="weight"), permeate_temperature=290.0, permeate_pressure=1.0)
+    if which in ("missing_parameters", "all"):
+        nop = U.Mixture(name="N", first_component=mix.first_component, second_component=mix.second_component, nrtl_params=None, uniquac_params=mix.uniquac_params)
+        core.call(U.Pervaporation(membrane=mem, mixture=nop).calculate_partial_fluxes, feed_temperature=333.15, composition=U.Composition(p=0.3, type="weight"), calculation_type="NRTL")
+    if which in ("nonconverging_solver", "all"):
+        # negative driving force: the permeate estimate leaves [0, 1] and the call raises from inside the iteration
+        core.call(pv.calculate_partial_fluxes, feed_temperature=300.0, composition=U.Composition(p=0.02, type="weight"), permeate_pressure=80.0,
+                  first_component_permeance=U.Permeance(value=1.0), second_component_permeance=U.Permeance(value=1e-6))
+
+
+def judge_reject_after(case):
+    _prelude(case["prelude"])
+    r = judge_reject(case)
+    if r["viol"]:
+        r["viol"] = [core.viol("C15/invalid_accepted", "after model calls that raised (%s): Composition(p=%r) was constructed" % (case["prelude"], case["p"]))]
+    return r
+
+
 def pairs(tier):
     ratios = [1e-3, 1e-2, 0.1, 0.5, 1.0, 2.0, 10.0, 1e2, 1e3]
     mws = sorted({getattr(U.Components, n).molecular_weight for n in U.BUILTIN_COMPONENTS})
@@ -130,11 +162,13 @@ def main(tier, seed):
     core.run_space(rep, sp2, judge)
     sp3 = core.Space("rejections", {"p": [-1e-12, 1 + 1e-12, -1.0, 2.0, math.nan, -math.inf, math.inf], "type": ["weight", "molar"]})
     core.run_space(rep, sp3, judge_reject)
+    sp4 = core.Space("rejections_after_failed_model_calls", {"prelude": PRELUDES, "p": [-1e-12, 1 + 1e-12, 2.0, math.nan, math.inf], "type": ["weight", "molar"]})
+    core.run_space(rep, sp4, judge_reject_after, chunk=1)
     return rep.finish()
 
 
 def replay(body):
-    fn = judge_reject if body.get("space") == "rejections" else judge
+    fn = judge_reject if body.get("space") == "rejections" else (judge_reject_after if body.get("space") == "rejections_after_failed_model_calls" else judge)
     r = fn(body["case"])
     for v in r["viol"]:
         print("violation key=%s: %s" % (v["key"], v["msg"]))
